@@ -39,6 +39,10 @@ def internal_values(dt, spec):
                 v = dt.validate(x) if entry == 'drv' else dt.validate(dt.import_value(x))
             except Exception:
                 continue
+            try:
+                dt(v)       # complete values only: a reported struct value carries all members (optional applies to change requests)
+            except Exception:
+                continue
             if not any(repr(v) == repr(o) for o in res):
                 res.append(v)
     return res
@@ -61,13 +65,31 @@ def make_class(spec):
         LOG.append(('read',))
         return self.p
 
-    def cmd(self, arg):
-        LOG.append(('cmd', arg))
-        return arg
+    if spec[0] == 'struct':
+        # a struct argument arrives as keyword arguments; members with a default are the optional ones
+        names = [n for n, _m in spec[1]]
+        optional = names if spec[2] is None else list(spec[2])
+        sig = ', '.join(n + ('=None' if n in optional else '') for n in sorted(names, key=lambda n: n in optional))
+        scope = {'LOG': LOG}
+        exec(f'def cmd(self, {sig}):\n'
+             f'    arg = {{k: v for k, v in dict({", ".join(f"{n}={n}" for n in names)}).items() if v is not None}}\n'
+             f'    LOG.append(("cmd", arg))\n'
+             f'    return None\n', scope)
+        cmd = scope['cmd']
+        command = Command(T.build(spec), description="cmd")(cmd)
+    elif spec[0] == 'tuple':
+        def cmd(self, *args):
+            LOG.append(('cmd', tuple(args)))
+            return tuple(args)
+        command = Command(T.build(spec), result=T.build(spec), description="cmd")(cmd)
+    else:
+        def cmd(self, arg):
+            LOG.append(('cmd', arg))
+            return arg
+        command = Command(T.build(spec), result=T.build(spec), description="cmd")(cmd)
 
     ns = {'p': Parameter('param', T.build(spec), readonly=False, default=vals[0]),
-          'write_p': write_p, 'read_p': read_p,
-          'c': Command(T.build(spec), result=T.build(spec))(cmd)}
+          'write_p': write_p, 'read_p': read_p, 'c': command}
     return type('E2E', (Writable,), ns), dt, vals
 
 
@@ -87,6 +109,8 @@ def run_spec(spec, part, proxy):
     import frappy.proxy as P
     from frappy.protocol.interface.tcp import TCPRequestHandler
     fakesock.install()
+    import frappy.io
+    frappy.io.HasIO.ioDict.clear()      # class-level cache uri -> io module name, shared by all nodes of a process
     cls, dt, vals = make_class(spec)
     sched = schedx.Scheduler([], max_steps=400000, horizon=600.0, grace=5.0)
     net = fakesock.Net()
@@ -129,7 +153,7 @@ def run_spec(spec, part, proxy):
                 try:
                     r = client.execCommand('m', 'c', v)[0]
                     c = [e for e in LOG if e[0] == 'cmd']
-                    check('command-roundtrip', len(c) == 1 and same(c[0][1], v, dt) and same(r, v, dt),
+                    check('command-roundtrip', len(c) == 1 and same(c[0][1], v, dt) and (spec[0] == 'struct' or same(r, v, dt)),
                           f'{T.sstr(spec)} execCommand({v!r}): driver {c}, result {r!r}')
                 except Exception as e:      # noqa
                     check('command-raised', False, f'{T.sstr(spec)} execCommand({v!r}) raised {e!r}')
@@ -156,7 +180,7 @@ def run_spec(spec, part, proxy):
                 rep = front.request(conn, f'do pm:_c {payload}')
                 c = [e for e in LOG if e[0] == 'cmd']
                 check('command-roundtrip', rep[0] == 'done' and len(c) == 1 and same(c[0][1], v, dt) and
-                      json.dumps(rep[2][0]) == json.dumps(dt.export_value(v)),
+                      (spec[0] == 'struct' or json.dumps(rep[2][0]) == json.dumps(dt.export_value(v))),
                       f'{T.sstr(spec)} do pm:_c {payload}: reply {rep}, driver {c}')
             front.secnode.shutdown_modules()
             io = front.secnode.modules.get('pm_io')
